@@ -1,5 +1,5 @@
 """C19 - Disk usage by logs, events and rule dumps stays within configured bounds."""
-import json, os, re, shutil, tempfile, threading, time
+import json, os, re, shutil, subprocess, tempfile, threading, time
 from .. import common, shim as shimmod, gen_rbac
 
 HEADER = 34   # bytes of the log line prefix added by RollingLogger::write
@@ -105,6 +105,12 @@ def dump_histories(sh, root, r, n_hist, rep_counts, viols, nontrivial, samples):
             open(os.path.join(d, "other.json"), "w").write("{}")
         seen_order = []
         nsteps = r.randrange(3, 25)
+        # continuous observation of the directory (inotify): the number of dumps on disk is judged at every instant, not only between operations -
+        # a kill at any moment must leave a directory within its bound
+        ino = None
+        if h % 3 == 0:
+            ino = subprocess.Popen(["inotifywait", "-m", "-q", "-e", "create,moved_to,delete,moved_from", "--format", "%e %f", d], stdout=subprocess.PIPE, stderr=subprocess.DEVNULL)
+            time.sleep(0.05)
         # the dumps share their directory with the rolling logs. Listing faults: an entry that cannot be stat'ed (dangling symlink) during
         # some steps, or files being renamed by a concurrent roller while the directory is listed. The bound must hold all the same
         # (whether a dump is written during the fault is not prescribed).
@@ -168,6 +174,22 @@ def dump_histories(sh, root, r, n_hist, rep_counts, viols, nontrivial, samples):
         stop_ren.set()
         if ren_thread is not None:
             ren_thread.join()
+        if ino is not None:
+            time.sleep(0.05)
+            ino.terminate()
+            count, peak = 0, 0
+            for line in ino.communicate()[0].decode(errors="replace").splitlines():
+                ev_, _, name = line.partition(" ")
+                if not re.match(r"^AuthorizationRules_.*\.json$", name):
+                    continue
+                if "CREATE" in ev_ or "MOVED_TO" in ev_:
+                    count += 1
+                elif "DELETE" in ev_ or "MOVED_FROM" in ev_:
+                    count -= 1
+                peak = max(peak, count)
+            rep_counts["dump_directories_watched_continuously"] = rep_counts.get("dump_directories_watched_continuously", 0) + 1
+            if peak > cap:
+                viols.append(["rule-dump-count-exceeds-cap:transiently", {"cap": cap, "peak_number_of_dumps_on_disk": peak, "history": "inotify event stream of the dump directory"}])
         others = [n for n in listing(d) if not re.match(r"^AuthorizationRules_.*\.json$", n)]
         nontrivial.append(common.sha(["dump", cap, len(seen_order) > cap, fault]))
         if len(samples) < 4:
